@@ -14,7 +14,7 @@ from six import iteritems
 from ..core import Machine, Transition
 
 from .nesting import HierarchicalMachine, NestedEvent, NestedTransition
-from .locking import LockedMachine
+from .locking import LockedMachine, nested, get_ident
 from .diagrams import GraphMachine, NestedGraphTransition, HierarchicalGraphMachine
 
 try:
@@ -63,6 +63,15 @@ class LockedHierarchicalMachine(LockedMachine, HierarchicalMachine):
 
     def _get_qualified_state_name(self, state):
         return self.get_global_name(state.name)
+
+    def _locked_method(self, func, *args, **kwargs):
+        # Models trigger events through the (public) method `trigger_event`. Hold the contexts registered for
+        # that model (machine contexts and model contexts) just like LockedEvent does for flat machines.
+        if getattr(func, '__name__', None) == 'trigger_event' and args and self._ident.current != get_ident():
+            contexts = self.model_context_map.get(id(args[0])) or self.machine_context
+            with nested(*contexts):
+                return func(*args, **kwargs)
+        return super(LockedHierarchicalMachine, self)._locked_method(func, *args, **kwargs)
 
 
 class LockedGraphMachine(GraphMachine, LockedMachine):
